@@ -79,6 +79,8 @@ type Gateway struct {
 	nextOut uint8    // sequence number of the next new request
 
 	ReuseChannel bool
+	RawOf        map[int][]byte    // telegram id -> cEMI bytes to transmit instead of the id frame
+	OnBus        func(cemi []byte) // called for every telegram accepted from the client
 
 	// behaviour knobs
 	Silent        bool          // answers nothing at all
@@ -278,6 +280,9 @@ func (g *Gateway) handle(raw []byte, from *net.UDPAddr, ref uint64) {
 			ep.ExpIn++
 			g.Bus = append(g.Bus, BusEntry{ID: cemiID(f.CEMI), Channel: f.Channel, Seq: f.Seq, At: g.e.Stamp()})
 			g.e.S.Logf("gw bus id=%d seq=%d", cemiID(f.CEMI), f.Seq)
+			if g.OnBus != nil {
+				g.OnBus(append([]byte(nil), f.CEMI...))
+			}
 		case ep.ExpIn - 1:
 			g.e.Probe("gw-duplicate-reacknowledged")
 		default:
@@ -357,7 +362,11 @@ func (g *Gateway) transmit(o *GwOut) {
 		o.FirstTx = g.e.Stamp()
 	}
 	o.Attempts++
-	g.send(mkTunnelReq(o.Channel, o.Seq, idCEMI(0x29, o.ID)))
+	c := idCEMI(0x29, o.ID)
+	if raw, ok := g.RawOf[o.ID]; ok {
+		c = raw
+	}
+	g.send(mkTunnelReq(o.Channel, o.Seq, c))
 	g.e.S.At(g.OutResend, fmt.Sprintf("gw-resend id=%d", o.ID), func() {
 		if !g.isPending(o) {
 			return
